@@ -247,6 +247,31 @@ pub fn run(ctx: &Ctx, rep: &mut Reporter) -> Json {
                     }
                 }
             }
+            // a section of a section is identified by its own bytes too
+            if input.len() >= 4 {
+                let a0 = rng.below(input.len());
+                let b0 = a0 + rng.below(input.len() - a0 + 1);
+                let c0 = rng.below(b0 - a0 + 1);
+                let d0 = c0 + rng.below(b0 - a0 - c0 + 1);
+                let bytes = &input[a0 + c0..a0 + d0];
+                let exp = proguard_uuid(bytes);
+                let (s, n) = cur::uuid_nested_section(&input, a0, b0, c0, d0);
+                let n_exp = cur::records(bytes, usize::MAX).0.len();
+                rep.count("evaluations", 2);
+                rep.count("nested_section_checks", 1);
+                if a0 > 0 && d0 > c0 {
+                    rep.count("nested_section_checks_with_outer_start_gt0_and_nonempty_inner", 1);
+                }
+                if s != exp || n != n_exp {
+                    let mut d = Json::obj();
+                    d.set("input_len", Json::i(input.len() as u64));
+                    d.set("ranges", Json::s(format!("section({a0}..{b0}).section({c0}..{d0})")));
+                    d.set("expected", Json::s(exp));
+                    d.set("section_uuid", Json::s(s));
+                    d.set("records_expected_and_seen", Json::s(format!("{n_exp} {n}")));
+                    rep.violation(case_idx, "uuid-oracle", "a section of a section is not identified by (or does not iterate over) its own bytes", d);
+                }
+            }
             // a second copy at a different address gives the same identifier
             let copy = input.clone();
             let b = cur::uuid(&copy);
